@@ -438,12 +438,15 @@ class Fingerprints(Harness):
             out.use_colors = False
             out.verbose = bool(inp['verbose'])
             kex = make_kex(M, L)
-            for t in self.types:
-                kex.set_host_key(t, ('BLOB-' + t).encode() if t not in ('ssh-rsa', 'rsa-sha2-256', 'rsa-sha2-512') else b'BLOB-RSA', 2048, '', 0)
-            if any(t in ('ssh-rsa', 'rsa-sha2-256', 'rsa-sha2-512') for t in self.types):
-                # the probe records an RSA key under all three family names, whether or not the server advertises each of them (HostKeyTest.perform_test)
-                for t in ('ssh-rsa', 'rsa-sha2-256', 'rsa-sha2-512'):
+            # recorded in the order in which the probe records them (HostKeyTest.perform_test walks its own table: the RSA family first - under all three
+            # family names, whether or not the server advertises each of them - then the certificate and the other types)
+            fam = ('ssh-rsa', 'rsa-sha2-256', 'rsa-sha2-512')
+            if any(t in fam for t in self.types):
+                for t in fam:
                     kex.set_host_key(t, b'BLOB-RSA', 2048, '', 0)
+            table = list(M.hostkeytest.HostKeyTest.HOST_KEY_TYPES)
+            for t in sorted((t for t in self.types if t not in fam), key=lambda t_: table.index(t_) if t_ in table else len(table)):
+                kex.set_host_key(t, ('BLOB-' + t).encode(), 2048, '', 0)
             cj = OL.CaptureJson()
             with AE.patched(M.ssh_audit, json=cj):
                 r = guarded(M.ssh_audit.output, out, aconf, M.banner.Banner((2, 0), 'x', None, True), [], None, kex)
